@@ -20,7 +20,7 @@ ASSUMPTIONS = [
     "scheduling: optimum compared with the brute-force optimum over semi-active schedules (which contain an optimal schedule); FJSP/JSSP with waits enabled",
     "MDCPDP: canonical form = set of (depot, route) over the non-empty tours; idle depot hops, the order in which vehicles leave and the (unused) depots visited only to end the episode are forgotten. Candidates: every customer order cut into <= D routes, each given to a distinct depot",
 ]
-REQUIRED_COUNTERS = ["c05_instances_fully_explored", "c05_candidates_checked", "c05_optimum_compared", "c05_boundary_instances", "c05_exact_fill_candidates", "c05_semi_active_schedules", "c05_explored_in_company"]
+REQUIRED_COUNTERS = ["c05_sdvrp_split_instances", "c05_sdvrp_instances_with_revisits", "c05_other_size_envs", "c05_instances_fully_explored", "c05_candidates_checked", "c05_optimum_compared", "c05_boundary_instances", "c05_exact_fill_candidates", "c05_semi_active_schedules", "c05_explored_in_company"]
 MIN_NONTRIVIAL = {"quick": 150, "thorough": 2500}
 WORKERS = {"quick": 14, "thorough": 16}
 BUDGET_S = {"quick": 600, "thorough": 3300}
@@ -46,6 +46,9 @@ def cases(tier, seed):
         add(dict(env="cvrp", n=n), ("gen", "boundary", "degenerate"))
         add(dict(env="cvrp", n=n, capacity=30), ("gen",))
         add(dict(env="sdvrp", n=n), ("gen", "boundary"))
+        if n <= 4:
+            add(dict(env="sdvrp", n=n), ("split",), reps * 2)
+            add(dict(env="sdvrp", n=3), ("split",), reps)
         add(dict(env="op", n=n), ("gen", "boundary"))
         add(dict(env="pctsp", n=n), ("gen", "boundary"))
         add(dict(env="spctsp", n=n), ("gen",), max(1, reps // 2))
@@ -70,6 +73,14 @@ def cases(tier, seed):
                      (6, (("minmax", "close", "L2", 2), ("minsum", "open", "L1", 3), ("lateness", "close", "L2", 3), ("minmax", "open", "L2", 2)))):
         for rm, pm, dm, dep in modes:
             add(dict(env="mdcpdp", n=n, reward_mode=rm, problem_mode=pm, dist_mode=dm, depots=dep), ("gen",), max(1, reps // 2))
+    # env constructed for another size than the instances explored (smaller and larger), size-agnostic envs
+    for n in (4, 5):
+        for env_n in (3, 10):
+            for cfg_ in (dict(env="tsp", n=n + 1), dict(env="cvrp", n=n), dict(env="sdvrp", n=n), dict(env="op", n=n), dict(env="svrp", n=n), dict(env="cvrptw", n=n, scale=False),
+                         dict(env="mtvrp", n=n, preset="all"), dict(env="mtvrp", n=n, preset="vrpb")):
+                for fam in (("gen", "boundary") if cfg_["env"] in ("cvrp", "sdvrp") else ("gen",)):
+                    for _ in range(max(1, reps // 4)):
+                        out.append(dict(cfg=cfg_, family=fam, s=rnd.randrange(10**6), env_n=env_n))
     # every other routing instance is explored with a second, different instance sitting at row 0 of the batch
     for i, c_ in enumerate(out):
         if i % 2 == 1:
